@@ -1,0 +1,45 @@
+// SPDX-FileCopyrightText: 2026 The Pion community <https://pion.ly>
+// SPDX-License-Identifier: MIT
+
+//go:build verif
+
+package rtpfb
+
+// Machine-checked contracts (comment-only; read by /verif/govc, never compiled into a normal build).
+//
+// Property C09 (and the no-panic clause of C02 for feedback decoding).
+//
+//@ # RFC 8888 metric blocks: acknowledgement i is about sequence number begin+i and carries exactly what block i encodes
+//@ func convertMetricBlock
+//@   modifies nothing
+//@   ensures one_per_block: len(result1) == len(blocks)
+//@   ensures attribution: forall i int :: 0 <= i && i < len(blocks) ==> result1[i].sequenceNumber == seqNrOffset + uint16(i)
+//@        && result1[i].arrived == blocks[i].Received && result1[i].ecn == ite(blocks[i].Received, blocks[i].ECN, rtcp.ECN(0))
+//@   ensures arrival_time: forall i int :: 0 <= i && i < len(blocks) ==> result1[i].arrival ==
+//@        ite(blocks[i].Received && blocks[i].ArrivalTimeOffset != 0x1FFF, reference.Add(-(time.Duration(blocks[i].ArrivalTimeOffset) * time.Second / 1024)), zeroTime())
+//@   loop 1 invariant done: len(reports) == len(blocks) && fresh(reports) && (forall i int :: 0 <= i && i <= rangeindex ==> reports[i].sequenceNumber == seqNrOffset + uint16(i)
+//@        && reports[i].arrived == blocks[i].Received && reports[i].ecn == ite(blocks[i].Received, blocks[i].ECN, rtcp.ECN(0))
+//@        && reports[i].arrival == ite(blocks[i].Received && blocks[i].ArrivalTimeOffset != 0x1FFF, reference.Add(-(time.Duration(blocks[i].ArrivalTimeOffset) * time.Second / 1024)), zeroTime()))
+//@   loop 1 decreases len(blocks) - rangeindex
+//@
+//@ # TWCC: acknowledgement j is about sequence number base+j; nothing beyond the declared status count; never panics
+//@ func convertTWCC
+//@   # what pion/rtcp's Unmarshal guarantees of a parsed feedback: status symbols are two-bit values
+//@   requires two_bit_symbols: feedback != nil ==> forall k int :: 0 <= k && k < len(feedback.PacketChunks) ==>
+//@        (typeis(feedback.PacketChunks[k], "*rtcp.RunLengthChunk") ==> as(feedback.PacketChunks[k], "*rtcp.RunLengthChunk").PacketStatusSymbol <= 3)
+//@        && (typeis(feedback.PacketChunks[k], "*rtcp.StatusVectorChunk") ==> forall m int :: 0 <= m && m < len(as(feedback.PacketChunks[k], "*rtcp.StatusVectorChunk").SymbolList) ==>
+//@              as(feedback.PacketChunks[k], "*rtcp.StatusVectorChunk").SymbolList[m] <= 3)
+//@   modifies nothing
+//@   ensures nil_feedback: feedback == nil ==> len(result) == 0
+//@   ensures within_declared_range: feedback != nil ==> len(result) <= int(feedback.PacketStatusCount)
+//@   ensures attribution: feedback != nil ==> forall j int :: 0 <= j && j < len(result) ==> result[j].sequenceNumber == feedback.BaseSequenceNumber + uint16(j)
+//@   loop 1 invariant aligned: len(acks) == offset && 0 <= offset && offset <= int(feedback.PacketStatusCount) && 0 <= recvDeltaIndex && recvDeltaIndex <= offset
+//@        && (acks == nil || fresh(acks))
+//@   loop 1 invariant attribution: forall j int :: 0 <= j && j < len(acks) ==> acks[j].sequenceNumber == feedback.BaseSequenceNumber + uint16(j)
+//@   loop 2 invariant aligned: len(acks) == offset && 0 <= offset && offset <= int(feedback.PacketStatusCount) && 0 <= recvDeltaIndex && recvDeltaIndex <= offset
+//@        && (acks == nil || fresh(acks))
+//@   loop 2 invariant attribution: forall j int :: 0 <= j && j < len(acks) ==> acks[j].sequenceNumber == feedback.BaseSequenceNumber + uint16(j)
+//@   loop 2 decreases 65535 - i
+//@   loop 3 invariant aligned: len(acks) == offset && 0 <= offset && offset <= int(feedback.PacketStatusCount) && 0 <= recvDeltaIndex && recvDeltaIndex <= offset
+//@        && (acks == nil || fresh(acks))
+//@   loop 3 invariant attribution: forall j int :: 0 <= j && j < len(acks) ==> acks[j].sequenceNumber == feedback.BaseSequenceNumber + uint16(j)
